@@ -10,15 +10,16 @@ import (
 )
 
 type SpecCtx struct {
-	st     *State
-	old    *State
-	pre    *State
-	vars   map[string]*Val
-	li     *loopInfo
-	pkg    string
-	locals bool // identifiers may denote locals/params of the function under verification
-	depth  int
-	inBody bool // evaluated at a program point inside the body: names denote current local cells
+	st         *State
+	old        *State
+	pre        *State
+	vars       map[string]*Val
+	li         *loopInfo
+	pkg        string
+	locals     bool // identifiers may denote locals/params of the function under verification
+	depth      int
+	inBody     bool // evaluated at a program point inside the body: names denote current local cells
+	quantDepth int
 }
 
 func (x *Exec) specCtx(st *State, li *loopInfo) *SpecCtx {
@@ -305,6 +306,38 @@ func (x *Exec) specEval(c *SpecCtx, e *Expr) (*Val, error) {
 			return nil, err
 		}
 		return x.specEval(c.with(map[string]*Val{e.Name: v}), e.Args[1])
+	case "setof":
+		// set comprehension: a fresh set constant with its defining axiom (definitional extension)
+		if len(e.BVars) != 1 {
+			return nil, fmt.Errorf("setof takes one binder")
+		}
+		for v := range c.vars {
+			if strings.Contains(v, "!q") {
+				_ = v
+			}
+		}
+		ty, err := x.resolveType(e.BVars[0].Type, c.pkg)
+		if err != nil {
+			return nil, err
+		}
+		x.bvN++
+		sym := &Term{Op: fmt.Sprintf("%s!q%d", sanitize(e.BVars[0].Name), x.bvN), S: ty.sort()}
+		var bv *Val
+		if ty.Go != nil {
+			bv = scalar(sym, ty.Go)
+		} else {
+			bv = &Val{K: VScalar, T: sym}
+		}
+		if c.quantDepth > 0 {
+			return nil, fmt.Errorf("setof inside a quantifier is not supported (it would need a Skolem function)")
+		}
+		body, err := x.specBool(c.with(map[string]*Val{e.BVars[0].Name: bv}), e.Args[0])
+		if err != nil {
+			return nil, err
+		}
+		A := x.D.fresh("setof", arr(ty.sort(), SBool))
+		x.asserts = append(x.asserts, tForall([]*Term{sym}, tEq(tSelect(A, sym), body), []*Term{tSelect(A, sym)}))
+		return &Val{K: VScalar, T: A, SetOf: ty.sort()}, nil
 	case "forall", "exists":
 		vars := map[string]*Val{}
 		var bound []*Term
@@ -327,6 +360,7 @@ func (x *Exec) specEval(c *SpecCtx, e *Expr) (*Val, error) {
 			bound = append(bound, sym)
 		}
 		c2 := c.with(vars)
+		c2.quantDepth++
 		body, err := x.specBool(c2, e.Args[0])
 		if err != nil {
 			return nil, err
@@ -439,6 +473,12 @@ func (x *Exec) specIdent(c *SpecCtx, name string) (*Val, error) {
 	}
 	if v, ok := c.st.ghost[name]; ok {
 		return v, nil
+	}
+	if name == "lastkey" {
+		if v, ok := c.st.ghost["$lastkey"]; ok {
+			return v, nil
+		}
+		return nil, fmt.Errorf("`lastkey` used outside a map-range loop step")
 	}
 	if name == "visited" && c.li != nil {
 		for r := range c.li.iters {
@@ -808,7 +848,6 @@ func (x *Exec) specBinary(c *SpecCtx, e *Expr) (*Val, error) {
 	}
 	return nil, fmt.Errorf("unknown operator %s", op)
 }
-
 
 // inferPatterns picks E-matching triggers: selects (or uninterpreted applications) whose index is exactly a
 // bound variable and whose array does not mention bound variables. Each candidate is an alternative
